@@ -85,6 +85,13 @@ def run(ctx):
                            lambda cell, pty=pty: [posit_arg(pty, c[0], c[1], i) for i, c in enumerate(cell)],
                            [keep, keep, keep], tspec(pty, f), pty.bits, max_product=20000)
             tot += decided(st)
+            import probes
+            pv = [v for v in probes.small_posit_probes(pty) if v not in (0, pty.nar)][:: (1 if ctx.tier == 'thorough' else 2)]
+            pc = probes.singles(pv)
+            st = run_cells(ctx, prog, 'GCR', '%s::%s' % (pty.name, name), path,
+                           lambda cell, pty=pty: [posit_arg(pty, c[0], c[1], i) for i, c in enumerate(cell)],
+                           [pc, pc, pc], tspec(pty, f), pty.bits, max_product=20000)
+            ctx.count('probe_cells', st['cells'])
             k = find_kernel(prog, path)
             if k is None:
                 ctx.finding('ANCHOR', '%s::%s' % (pty.name, name), 'kernel', 'no callee with a MulAddType selector found')
